@@ -21,6 +21,8 @@ import (
 type Scenario struct {
 	ID    string
 	World string
+	// Hooks enables the verif-tagged scheduling points inside go-header.
+	Hooks bool
 	// Run executes one simulated run. It reports findings through
 	// sim.Violate and returns descriptive info for evidence.
 	Run func(s *core.Sim, tier string) RunInfo
@@ -71,6 +73,8 @@ func runOne(t *testing.T, sc *Scenario, tape *core.Tape, tier string) (res Resul
 	}()
 	synctest.Test(t, func(t *testing.T) {
 		sim := core.NewSim(tape)
+		installHooks(sim, sc.Hooks)
+		defer installHooks(nil, false)
 		func() {
 			defer func() {
 				if r := recover(); r != nil {
